@@ -117,11 +117,16 @@ def _namings():
         "ticked-plain": ({"X": "`x`", "Y": "y", "Z": "`z`"}, ["x", "y", "z"], "from_spec"),
         "spec-numeric": ({"X": "x", "Y": "Intercept", "Z": "z"}, "numeric", "model_spec"),
         "spec-categorical": ({"X": "A[T.b]", "Y": "`x:y`", "Z": "`A[T.c]`"}, "categorical", "model_spec"),
+        # column names that read like numeric literals (dummy / pivoted level columns): the column `1` is not the constant 1
+        "ticked-digits": ({"X": "`1`", "Y": "`0`", "Z": "`10`"}, ["0", "1", "2", "10"], "from_spec"),
+        "ticked-digits-2": ({"X": "`2`", "Y": "`1`", "Z": "`0.5`"}, ["2", "0.5", "1"], "from_spec"),
+        "spec-digits": ({"X": "`1`", "Y": "`2`", "Z": "x"}, "digits", "model_spec"),
     }
 
 
 NAMINGS = _namings()
 _SPECS = {}
+SPEC_FORMULAS = {"numeric": "x + y + z", "categorical": "A + x:y + z", "digits": "0 + `0` + `1` + `2` + x"}
 
 
 def model_spec(which):
@@ -133,8 +138,9 @@ def model_spec(which):
             "A": pandas.Series(["a", "b", "c", "a"], dtype=object),
             "x": [1.0, 2.0, 4.0, 8.0], "y": [3.0, 5.0, 7.0, 11.0], "z": [0.5, 0.25, 2.0, 1.0],
         })
-        formula = {"numeric": "x + y + z", "categorical": "A + x:y + z"}[which]
-        _SPECS[which] = model_matrix(formula, df).model_spec
+        if which == "digits":
+            df = pandas.DataFrame({"0": [1.0, 0.0, 0.0, 1.0], "1": [0.0, 1.0, 0.0, 2.0], "2": [0.0, 0.0, 1.0, 3.0], "x": [0.5, 1.5, 2.5, 4.0]})
+        _SPECS[which] = model_matrix(SPEC_FORMULAS[which], df).model_spec
     return _SPECS[which]
 
 
@@ -181,7 +187,7 @@ def close(got, want):
 def repro(spec, names, ms_key):
     if ms_key:
         return ("model_matrix(%r, df).model_spec.get_linear_constraints(%r)"
-                % ({"numeric": "x + y + z", "categorical": "A + x:y + z"}[ms_key], spec))
+                % (SPEC_FORMULAS[ms_key], spec))
     return "LinearConstraints.from_spec(%r, variable_names=%r)" % (spec, names)
 
 
@@ -281,7 +287,8 @@ def selfcheck(cons_parsed, trees, toks_map, names):
 # covering design of (style, spaced, naming): every style, spacing and naming occurs for every tree
 VARIANTS_LIGHT = [("min", True, "xyz"), ("full", True, "zyx"), ("min", False, "zyx"), ("leafy", False, "xyz")]
 VARIANTS_ALL = [(st, sp, nm) for st in ("min", "full", "leafy") for sp in (True, False)
-                for nm in ("xyz", "zyx", "extra", "ticked", "ticked-plain", "spec-numeric", "spec-categorical")]
+                for nm in ("xyz", "zyx", "extra", "ticked", "ticked-plain", "spec-numeric", "spec-categorical",
+                           "ticked-digits", "ticked-digits-2", "spec-digits")]
 
 
 def drv_expr(c, ctx, col):
@@ -557,20 +564,20 @@ def subchecks(tier, seed):
         subs.append(Sub("forms", drv_forms, {"pool": pool2, "n": 2, "nmin": 1, "namings": ["zyx", "spec-categorical"],
                                               "styles": ["min"], "values": [-2, 2.5]},
                         shard_depth=2, bounds={"constraints": "1..2", "pool": len(pool2), "forms": FORMS, "mapping_values": [-2, 2.5]}))
-        subs.append(Sub("forms-3", drv_forms, {"pool": pool3, "n": 3, "nmin": 3, "namings": ["xyz", "spec-numeric"], "styles": ["min"],
+        subs.append(Sub("forms-3", drv_forms, {"pool": pool3, "n": 3, "nmin": 3, "namings": ["xyz", "spec-numeric", "ticked-digits"], "styles": ["min"],
                                                 "values": [-0.75]},
                         shard_depth=3, bounds={"constraints": 3, "pool": len(pool3), "forms": FORMS, "mapping_values": [-0.75]}))
         subs.append(Sub("namings", drv_expr, {"eq": True, "k": 1, "kmin": 0, "leaves": [X, Y, Z, "2"], "variants": VARIANTS_ALL, "neg": False},
-                        shard_depth=3, bounds={"max_binary_operators_both_sides": 1, "leaves": "x y z 2", "variants": "all 42 (3 styles x 2 spacings x 7 namings)"}))
+                        shard_depth=3, bounds={"max_binary_operators_both_sides": 1, "leaves": "x y z 2", "variants": "all 60 (3 styles x 2 spacings x 10 namings)"}))
         subs.append(Sub("unary", drv_unary, {"k": 1, "leaves": LEAVES3, "namings": ["xyz"]}, shard_depth=3,
                         bounds={"max_binary_operators": 1, "leaves": three, "one unary sign": "every node, - and +, parenthesised and bare, 4 shapes"}))
         subs.append(Sub("unary-2", drv_unary, {"k": 2, "kmin": 2, "leaves": LEAVES3, "namings": ["xyz"], "shapes": ["E", "2 = E"],
                                                 "signs": ["neg"], "spacing": False}, shard_depth=4,
                         bounds={"binary_operators": 2, "leaves": three, "one unary minus": "every node, parenthesised and bare, shapes E and 2 = E"}))
         subs.append(Sub("mapping-values", drv_forms, {"pool": pool2, "n": 1, "nmin": 1, "forms": ["mapping"], "styles": ["min"],
-                                                       "namings": ["xyz", "ticked", "spec-numeric"], "values": VALUE_TYPES},
+                                                       "namings": ["xyz", "ticked", "spec-numeric", "spec-digits"], "values": VALUE_TYPES},
                         shard_depth=2, bounds={"constraints": 1, "pool": len(pool2), "forms": ["mapping"],
-                                               "mapping_values": [repr(v) for v in VALUE_TYPES], "namings": ["xyz", "ticked", "spec-numeric"]}))
+                                               "mapping_values": [repr(v) for v in VALUE_TYPES], "namings": ["xyz", "ticked", "spec-numeric", "spec-digits"]}))
         subs.append(Sub("unspecified-probes", drv_probes, {}, shard_depth=1, bounds={"probes": [p[1] for p in PROBES]}))
         subs.append(Sub("literals", drv_literals, {"literals": LITERALS[:8]}, shard_depth=2, bounds={"literals": LITERALS[:8]}))
     else:
@@ -595,13 +602,13 @@ def subchecks(tier, seed):
                                                 "styles": ["min"], "values": [0, 1, -0.75]},
                         shard_depth=3, bounds={"constraints": 3, "pool": len(pool3), "forms": FORMS, "mapping_values": [0, 1, -0.75]}))
         subs.append(Sub("namings", drv_expr, {"eq": True, "k": 1, "kmin": 0, "leaves": [X, Y, Z, "2", "0.5"], "variants": VARIANTS_ALL},
-                        shard_depth=3, bounds={"max_binary_operators_both_sides": 1, "leaves": "x y z 2 0.5", "variants": "all 42 x head minus"}))
+                        shard_depth=3, bounds={"max_binary_operators_both_sides": 1, "leaves": "x y z 2 0.5", "variants": "all 60 x head minus"}))
         subs.append(Sub("unary", drv_unary, {"k": 2, "leaves": LEAVES3, "namings": ["xyz", "ticked"]}, shard_depth=4,
                         bounds={"max_binary_operators": 2, "leaves": three, "one unary sign": "every node, - and +, parenthesised and bare, 4 shapes"}))
         subs.append(Sub("mapping-values", drv_forms, {"pool": pool3, "n": 2, "nmin": 1, "forms": ["mapping"], "styles": ["min"],
-                                                       "namings": ["xyz", "ticked", "spec-numeric"], "values": VALUE_TYPES},
+                                                       "namings": ["xyz", "ticked", "spec-numeric", "spec-digits"], "values": VALUE_TYPES},
                         shard_depth=2, bounds={"constraints": "1..2", "pool": len(pool3), "forms": ["mapping"],
-                                               "mapping_values": [repr(v) for v in VALUE_TYPES], "namings": ["xyz", "ticked", "spec-numeric"]}))
+                                               "mapping_values": [repr(v) for v in VALUE_TYPES], "namings": ["xyz", "ticked", "spec-numeric", "spec-digits"]}))
         subs.append(Sub("unspecified-probes", drv_probes, {}, shard_depth=1, bounds={"probes": [p[1] for p in PROBES]}))
         subs.append(Sub("literals", drv_literals, {"literals": LITERALS}, shard_depth=2, bounds={"literals": LITERALS}))
     return subs
